@@ -27,15 +27,15 @@ import (
 )
 
 type goInfo struct {
-	t        reflect.Type // *T
-	mt       protoreflect.MessageType
-	api      string                               // open | hybrid | opaque | other
-	name     map[protoreflect.FieldNumber]string  // Go name of every field
-	sfield   map[protoreflect.FieldNumber]int     // struct field index (non-oneof fields; open/hybrid: exported)
-	ofield   map[protoreflect.FieldNumber]int     // struct field index of the oneof interface holding this member
-	owrap    map[protoreflect.FieldNumber]reflect.Type // *wrapper type of a oneof member
-	oneofGo  map[string]string                    // proto oneof name -> Go name (from the struct field)
-	builder  reflect.Type
+	t       reflect.Type // *T
+	mt      protoreflect.MessageType
+	api     string                                    // open | hybrid | opaque | other
+	name    map[protoreflect.FieldNumber]string       // Go name of every field
+	sfield  map[protoreflect.FieldNumber]int          // struct field index (non-oneof fields; open/hybrid: exported)
+	ofield  map[protoreflect.FieldNumber]int          // struct field index of the oneof interface holding this member
+	owrap   map[protoreflect.FieldNumber]reflect.Type // *wrapper type of a oneof member
+	oneofGo map[string]string                         // proto oneof name -> Go name (from the struct field)
+	builder reflect.Type
 }
 
 var (
@@ -239,8 +239,8 @@ func buildNative(gi *goInfo, t *Tree, mode string, xf extFinder) proto.Message {
 		mode = ms[0]
 	}
 	md := gi.mt.Descriptor()
-	var msg reflect.Value  // *T
-	var bld reflect.Value  // builder struct (addressable)
+	var msg reflect.Value // *T
+	var bld reflect.Value // builder struct (addressable)
 	if mode == "builder" {
 		bld = reflect.New(gi.builder).Elem()
 	} else {
